@@ -479,6 +479,10 @@ def plain_labels(prog):
                 if s[2]:
                     walk(s[2])
             elif k == "switch":
+                if s[1][0] in OP_SWITCH_HEADERS:
+                    # the header of such a switch is an operation; `switch (ProcessSpecial(1, 2)) { }` is also how the decompiler
+                    # writes that operation when it is used as a plain statement
+                    out.append(("op", s[1][0], tuple(s[1][1]), None))
                 for _, b in s[2]:
                     walk(b)
             elif k == "forever":
@@ -493,3 +497,8 @@ def plain_labels(prog):
         if b:
             walk(b)
     return sorted(out, key=repr)
+
+
+OP_SWITCH_HEADERS = ("message_SwitchMenu", "message_SwitchMenu2", "ProcessSpecial", "message_Menu", "main_EnterAdventure", "main_EnterRescueUser",
+                     "main_EnterTraining", "main_EnterTraining2", "SwitchDirection", "SwitchDirectionLives", "SwitchDirectionLives2",
+                     "SwitchDirectionMark", "SwitchLives", "SwitchValue", "SwitchVariable")
